@@ -19,10 +19,11 @@ def showGroups (fs : Frags) : String :=
 
 def handle (args : List String) : String :=
   match args with
-  | ["split", f, g, p] =>
-    match natOf f, natOf g, XMT.Drv.C01.parsePkt p with
-    | some f, some g, some p => " ".intercalate ((split f p g).map XMT.Drv.C01.showPkt)
-    | _, _, _ => "bad-op"
+  | ["split", f, g, j, p] =>
+    -- j: the Job number the implementation drew for a packet without one
+    match natOf f, natOf g, natOf j, XMT.Drv.C01.parsePkt p with
+    | some f, some g, some j, some p => " ".intercalate ((split f (withJob p j) g).map XMT.Drv.C01.showPkt)
+    | _, _, _, _ => "bad-op"
   | "recv" :: toks =>
     match toks.mapM XMT.Drv.C01.parsePkt with
     | none => "bad-op"
